@@ -691,7 +691,10 @@ def drive(check_name, tier, verif_seed, budget_s=None, max_runs=None,
         if match:
             if v["sig"] not in seen_sigs:
                 known_hit.append(v["sig"])
-                print(f"KNOWN-FINDING: property={check.prop} {match[0]}")
+                text = match[0]
+                if text.startswith(f"property={check.prop} "):
+                    text = text[len(f"property={check.prop} "):]
+                print(f"KNOWN-FINDING: property={check.prop} {text}")
             seen_sigs.add(v["sig"])
             continue
         new_violations.append((idx, case, v))
